@@ -117,6 +117,31 @@ Theorem C05_punct_example :
 Proof. split; [apply synth_punct_edit_cfg | vm_compute; reflexivity]. Qed.
 Print Assumptions C05_punct_example.
 
+(** ... and key_binder between them and the speller - the stock chain order - under [no_alphabet_binding] (no binding accepts
+    an unmodified key of the alphabet; decided by [no_alphabet_binding_dec] for the 28 bindings of the synthetic schemas:
+    Control+letter keys, Tab, comma / period / minus / equal / bracketleft in every condition, self-sending and cyclic ones) *)
+Theorem C05_edit_refines_buffer_stock_order :
+  forall (fluid dlog : bool) (translate : bytes -> seginfo -> list cand) (keys : list ekey),
+    Forall (fun k => ekey_ok (synth_ascii_cfg fluid dlog) k = true) keys ->
+    let r := run (synth_ascii_cfg fluid dlog) translate (map op_of_ekey keys) in
+    cx_input (st_ctx (fst r)) = b_text (buf_run keys) /\
+    cx_caret (st_ctx (fst r)) = b_caret (buf_run keys) /\
+    st_commit (fst r) = [] /\
+    map edit_summary (snd r) = map (fun x => Some (x, [])) (buf_trace buf_empty keys).
+Proof. exact edit_refines_buffer_stock_order. Qed.
+Print Assumptions C05_edit_refines_buffer_stock_order.
+
+Theorem C05_edit_refines_buffer_key_binder :
+  forall (fluid dlog : bool) (translate : bytes -> seginfo -> list cand) (keys : list ekey),
+    Forall (fun k => ekey_ok (synth_kb_cfg fluid dlog) k = true) keys ->
+    let r := run (synth_kb_cfg fluid dlog) translate (map op_of_ekey keys) in
+    cx_input (st_ctx (fst r)) = b_text (buf_run keys) /\
+    cx_caret (st_ctx (fst r)) = b_caret (buf_run keys) /\
+    st_commit (fst r) = [] /\
+    map edit_summary (snd r) = map (fun x => Some (x, [])) (buf_trace buf_empty keys).
+Proof. exact edit_refines_buffer_kb. Qed.
+Print Assumptions C05_edit_refines_buffer_key_binder.
+
 Theorem C05_ascii_example :
   edit_cfg (synth_acedit_cfg false true) /\
   map (fun x => snd (fst x)) (buf_trace buf_empty c05_example_keys) =
